@@ -39,7 +39,7 @@ __attribute__((used)) const char *__ubsan_default_options(void) { return "halt_o
 
 /* ---------------- allocator seam ---------------- */
 void *__real_malloc(size_t); void *__real_calloc(size_t, size_t); void *__real_realloc(void *, size_t); void __real_free(void *);
-static int seam_on, junk_byte, move_realloc, stale_recycle; static uint64_t n_alloc, n_recycled;
+static int seam_on, junk_byte, move_realloc, stale_recycle, stale_image; static void *poison_ptr; static uint64_t n_alloc, n_recycled;
 #define NCACHE 8
 static struct { void *p; size_t n; } cache[NCACHE]; static int ncache;
 static size_t hdr_obj_size;   /* size of a GC array object: recycled stale like a LIFO allocator would */
@@ -49,6 +49,14 @@ void *__wrap_malloc(size_t n) {
     if (stale_recycle) for (int i = ncache - 1; i >= 0; i--) if (cache[i].n == n) { void *p = cache[i].p; cache[i] = cache[--ncache]; n_recycled++; return p; }
     void *p = __real_malloc(n);
     if (p && junk_byte) memset(p, junk_byte, n);
+    if (p && stale_image && hdr_obj_size && n == hdr_obj_size) {
+        /* fresh memory is whatever its previous owner left there; here it is the image of an array of arrays whose element
+         * store has long been freed.  Code that looks at a new object before initialising it walks into that store. */
+        if (!poison_ptr) { poison_ptr = __real_malloc(64); __real_free(poison_ptr); }
+        DynArray img; memset(&img, 0, sizeof img);
+        img.length = 3; img.capacity = 8; img.elem_type = ELEM_ARRAY; img.elem_size = (uint8_t)sizeof(void *); img.data = poison_ptr;
+        memcpy((char *)p + sizeof(GCHeader), &img, sizeof img);
+    }
     return p;
 }
 void *__wrap_calloc(size_t a, size_t b) { return __real_calloc(a, b); }
@@ -96,11 +104,13 @@ static void *ballast[4]; static int nballast;
 enum { OP_NEW, OP_NEWCAP, OP_PUSH, OP_POP, OP_GET, OP_SET, OP_INSERT, OP_REMOVE, OP_CLEAR, OP_RESERVE, OP_CLONE, OP_RETAIN, OP_RELEASE, OP_BALLAST, OP_COLLECT, OP_GCSTR,
        OP_LI_NEW, OP_LI_PUSH, OP_LI_POP, OP_LI_INSERT, OP_LI_REMOVE, OP_LI_SET, OP_LI_CLEAR, OP_LI_FREE,
        OP_LS_NEW, OP_LS_PUSH, OP_LS_POP, OP_LS_INSERT, OP_LS_REMOVE, OP_LS_SET, OP_LS_CLEAR, OP_LS_FREE,
-       OP_NS_NEW, OP_NS_CONCAT, OP_NS_SUBSTR, OP_NS_CLONE, OP_NS_RESERVE, OP_NS_FREE, OP_NS_UTF8, OP_GC_RESTART, OP_GCSTR_HOLD, OP_GCSTR_DROP, NOPS };
+       OP_NS_NEW, OP_NS_CONCAT, OP_NS_SUBSTR, OP_NS_CLONE, OP_NS_RESERVE, OP_NS_FREE, OP_NS_UTF8, OP_GC_RESTART, OP_GCSTR_HOLD, OP_GCSTR_DROP,
+       OP_PUSH_SELF, OP_SET_SELF, OP_LS_SET_SELF, OP_RETAIN_MANY, NOPS };
 static const char *opname[] = { "new", "new_with_capacity", "push", "pop", "get", "set", "insert", "remove_at", "clear", "reserve", "clone", "retain", "release", "ballast", "collect", "gc_string",
        "li_new", "li_push", "li_pop", "li_insert", "li_remove", "li_set", "li_clear", "li_free",
        "ls_new", "ls_push", "ls_pop", "ls_insert", "ls_remove", "ls_set", "ls_clear", "ls_free",
-       "ns_new", "ns_concat", "ns_substring", "ns_clone", "ns_reserve", "ns_free", "ns_utf8", "gc_restart", "gc_string_hold", "gc_string_drop" };
+       "ns_new", "ns_concat", "ns_substring", "ns_clone", "ns_reserve", "ns_free", "ns_utf8", "gc_restart", "gc_string_hold", "gc_string_drop",
+       "push_own_element", "set_from_own_element", "ls_set_from_own_element", "retain_release_many" };
 /* generated list types and byte strings: two slots each, modelled by plain C arrays */
 #define LMAX 300
 static struct { List_int *l; int n; int64_t v[LMAX]; } LI[2];
@@ -110,7 +120,7 @@ static void lists_check(const char *after, int opi);
 static char *held[3]; static size_t heldlen[3];
 static bool utf8_ref(const uint8_t *d, size_t n, long *count);
 typedef struct Op { int op, arr, kind; long x, y; } Op;
-typedef struct Plan { uint64_t seed; int junk, movere, stale, thresh; int nops; Op ops[256]; } Plan;
+typedef struct Plan { uint64_t seed; int junk, movere, stale, thresh, image; int nops; Op ops[256]; } Plan;
 
 static char vmsg[400]; static char vsig[120];
 static void viol(const char *sig, const char *fmt, ...) {
@@ -171,6 +181,26 @@ static void do_push(MArr *m, MVal *v) {
     case K_STRUCT: m->d = dyn_array_push_struct(m->d, v->st, (size_t)m->ssize); break;
     }
 }
+/* UTF-8 oracle on one string slot.  First what the string believes about itself (the cached flag the utf8_* calls trust):
+ * a string that answers a length must really be valid and have that many characters, and decoding its last character
+ * must stay inside it.  Then the validator against the reference validator, and the calls again. */
+static void utf8_oracle(int a1, Op *o, int i) {
+    if (a1 < 0 || !NS[a1].s) return;
+    long cnt = 0; bool want = utf8_ref(NS[a1].v, NS[a1].n, &cnt);
+    long long bel = (long long)nl_string_utf8_length(NS[a1].s);
+    if (bel >= 0) {
+        if (!want) { viol("utf8-believed-valid", "op %d: a %zu-byte string that is not valid UTF-8 answers utf8_length=%lld without having been validated", i, NS[a1].n, bel); return; }
+        if (bel != cnt) { viol("utf8-length-differs", "op %d: utf8_length %lld, reference %ld", i, bel, cnt); return; }
+        if (bel > 0) { (void)nl_string_utf8_char_at(NS[a1].s, (size_t)(bel - 1)); (void)nl_string_utf8_char_at(NS[a1].s, (size_t)(o->x % bel)); }
+    }
+    bool got = nl_string_validate_utf8(NS[a1].s);
+    if (got != want) { viol("utf8-validity-differs", "op %d: nl_string_validate_utf8 says %d, reference says %d for a %zu-byte string", i, got, want, NS[a1].n); return; }
+    if (want) {
+        if (nl_string_utf8_length(NS[a1].s) != cnt) { viol("utf8-length-differs", "op %d: utf8_length %lld, reference %ld", i, (long long)nl_string_utf8_length(NS[a1].s), cnt); return; }
+        if (cnt > 0) { (void)nl_string_utf8_char_at(NS[a1].s, (size_t)(o->x % cnt)); (void)nl_string_utf8_char_at(NS[a1].s, (size_t)(cnt - 1));
+            nl_string_t *sub = nl_string_utf8_substring(NS[a1].s, (size_t)(o->x % cnt), (size_t)(o->y % (cnt + 1))); if (sub) nl_string_free(sub); }
+    }
+}
 static void lists_check(const char *after, int opi) {
     for (int k = 0; k < 2; k++) {
         if (LI[k].l) { n_checks++;
@@ -199,7 +229,7 @@ static int pick_live(long x) { int c = 0; for (int i = 0; i < MAXA; i++) c += A[
 
 static void run_plan(Plan *P) {
     memset(held, 0, sizeof held); memset(A, 0, sizeof A); memset(LI, 0, sizeof LI); memset(LS, 0, sizeof LS); memset(NS, 0, sizeof NS); live_objects = 0; nballast = 0; vsig[0] = vmsg[0] = 0; n_checks = 0;
-    junk_byte = P->junk; move_realloc = P->movere; stale_recycle = P->stale; ncache = 0;
+    junk_byte = P->junk; move_realloc = P->movere; stale_recycle = P->stale; stale_image = P->image; ncache = 0;
     hdr_obj_size = sizeof(GCHeader) + sizeof(DynArray);
     gc_init();
     if (P->thresh) gc_set_threshold((size_t)P->thresh);
@@ -208,6 +238,7 @@ static void run_plan(Plan *P) {
         Op *o = &P->ops[i];
         int a = o->arr % MAXA;
         MArr *m = &A[a];
+        int u8slot = -1;
         switch (o->op) {
         case OP_NEW: case OP_NEWCAP:
             if (m->live) break;
@@ -260,7 +291,7 @@ static void run_plan(Plan *P) {
         case OP_REMOVE: { int t = pick_live(o->arr); if (t < 0) break; m = &A[t]; if (!m->len) break; int idx = (int)((unsigned long)o->x % (unsigned)m->len);
             m->d = dyn_array_remove_at(m->d, idx); memmove(&m->v[idx], &m->v[idx + 1], sizeof(MVal) * (size_t)(m->len - idx - 1)); m->len--; break; }
         case OP_CLEAR: { int t = pick_live(o->arr); if (t < 0) break; dyn_array_clear(A[t].d); A[t].len = 0; break; }
-        case OP_RESERVE: { int t = pick_live(o->arr); if (t < 0) break; if (A[t].kind == K_STRUCT && A[t].d->elem_size == 0) break; dyn_array_reserve(A[t].d, o->x % 1000); break; }
+        case OP_RESERVE: { int t = pick_live(o->arr); if (t < 0) break; dyn_array_reserve(A[t].d, o->x % 1000); break; }
         case OP_CLONE: { int t = pick_live(o->arr); if (t < 0) break; int free_slot = -1; for (int k = 0; k < MAXA; k++) if (!A[k].live) free_slot = k; if (free_slot < 0) break;
             DynArray *c = dyn_array_clone(A[t].d); if (!c) break;
             A[free_slot] = A[t]; A[free_slot].d = c; A[free_slot].rc = 1; live_objects++; break; }
@@ -304,26 +335,20 @@ static void run_plan(Plan *P) {
             else {   /* well-formed multi-byte sequences, cut at an arbitrary byte (the tail may be a truncated character) */
                 size_t j = 0; uint64_t z = (uint64_t)o->y * 2654435761u + 1;
                 while (j < n) { z ^= z << 13; z ^= z >> 7; z ^= z << 17; int l = 1 + (int)(z % 4); static const uint8_t lead[] = { 0x41, 0xC3, 0xE2, 0xF0 };
+                    if ((o->y & 4) && j + (size_t)l > n) l = 1;   /* half of the strings end on a character boundary, i.e. are valid */
                     NS[k].v[j++] = l == 1 ? (uint8_t)(0x20 + z % 0x5f) : lead[l - 1]; for (int q = 1; q < l && j < n; q++) NS[k].v[j++] = (uint8_t)(0x80 + (z >> (8 * q)) % 0x40); }
             }
             NS[k].n = n;
             NS[k].s = nl_string_new_binary(NS[k].v, n); break; }
         case OP_NS_CONCAT: { int a1 = o->arr % 3, b1 = (int)(o->x % 3), d1 = (int)(o->y % 3); if (!NS[a1].s || !NS[b1].s || NS[d1].s || NS[a1].n + NS[b1].n > 4000) break;
-            NS[d1].s = nl_string_concat(NS[a1].s, NS[b1].s); memcpy(NS[d1].v, NS[a1].v, NS[a1].n); memcpy(NS[d1].v + NS[a1].n, NS[b1].v, NS[b1].n); NS[d1].n = NS[a1].n + NS[b1].n; break; }
+            NS[d1].s = nl_string_concat(NS[a1].s, NS[b1].s); memcpy(NS[d1].v, NS[a1].v, NS[a1].n); memcpy(NS[d1].v + NS[a1].n, NS[b1].v, NS[b1].n); NS[d1].n = NS[a1].n + NS[b1].n; u8slot = d1; break; }
         case OP_NS_SUBSTR: { int a1 = o->arr % 3, d1 = (int)(o->y % 3); if (!NS[a1].s || NS[d1].s || !NS[a1].n) break; size_t st = (size_t)o->x % NS[a1].n, ln = (size_t)(o->y / 3) % (NS[a1].n - st + 1);
-            NS[d1].s = nl_string_substring(NS[a1].s, st, ln); memcpy(NS[d1].v, NS[a1].v + st, ln); NS[d1].n = ln; break; }
-        case OP_NS_CLONE: { int a1 = o->arr % 3, d1 = (int)(o->y % 3); if (!NS[a1].s || NS[d1].s) break; NS[d1].s = nl_string_clone(NS[a1].s); memcpy(NS[d1].v, NS[a1].v, NS[a1].n); NS[d1].n = NS[a1].n; break; }
+            NS[d1].s = nl_string_substring(NS[a1].s, st, ln); memcpy(NS[d1].v, NS[a1].v + st, ln); NS[d1].n = ln;
+            /* what the new string believes about itself is checked at once, not only if a later op happens to pick it */
+            u8slot = d1; break; }
+        case OP_NS_CLONE: { int a1 = o->arr % 3, d1 = (int)(o->y % 3); if (!NS[a1].s || NS[d1].s) break; NS[d1].s = nl_string_clone(NS[a1].s); memcpy(NS[d1].v, NS[a1].v, NS[a1].n); NS[d1].n = NS[a1].n; u8slot = d1; break; }
         case OP_NS_RESERVE: { int a1 = o->arr % 3; if (!NS[a1].s) break; if (o->x & 1) nl_string_reserve(NS[a1].s, (size_t)(o->y % 5000)); else nl_string_shrink_to_fit(NS[a1].s); break; }
-        case OP_NS_UTF8: { int a1 = o->arr % 3; if (!NS[a1].s) break;
-            long cnt = 0; bool want = utf8_ref(NS[a1].v, NS[a1].n, &cnt);
-            bool got = nl_string_validate_utf8(NS[a1].s);
-            if (got != want) { viol("utf8-validity-differs", "op %d: nl_string_validate_utf8 says %d, reference says %d for a %zu-byte string", i, got, want, NS[a1].n); break; }
-            if (want) {
-                if (nl_string_utf8_length(NS[a1].s) != cnt) { viol("utf8-length-differs", "op %d: utf8_length %lld, reference %ld", i, (long long)nl_string_utf8_length(NS[a1].s), cnt); break; }
-                if (cnt > 0) { (void)nl_string_utf8_char_at(NS[a1].s, (size_t)(o->x % cnt)); (void)nl_string_utf8_char_at(NS[a1].s, (size_t)(cnt - 1));
-                    nl_string_t *sub = nl_string_utf8_substring(NS[a1].s, (size_t)(o->x % cnt), (size_t)(o->y % (cnt + 1))); if (sub) nl_string_free(sub); }
-            }
-            break; }
+        case OP_NS_UTF8: u8slot = o->arr % 3; break;
         case OP_GC_RESTART: {
             /* shut the collector down (it frees everything that is still alive) and start a new session in the same process */
             gc_shutdown();
@@ -335,8 +360,47 @@ static void run_plan(Plan *P) {
         case OP_GCSTR_HOLD: { int k = o->arr % 3; if (held[k]) break; size_t n = (o->x % 4 == 0) ? 0 : (size_t)(o->x % 90);
             held[k] = gc_alloc_string(n); if (!held[k]) break; for (size_t j = 0; j < n; j++) held[k][j] = (char)('a' + (j + (size_t)o->y) % 26); held[k][n] = 0; heldlen[k] = n; live_objects++; break; }
         case OP_GCSTR_DROP: { int k = o->arr % 3; if (!held[k]) break; gc_release(held[k]); held[k] = NULL; live_objects--; break; }
+        /* aliasing: the value handed to the container lives inside the container ((array_push a (at a i)), (set a i (at a j))) */
+        case OP_PUSH_SELF: { int t = pick_live(o->arr); if (t < 0) break; m = &A[t]; if (!m->len) break;
+            int reps = 1 + (int)(o->y % 12);
+            for (int r = 0; r < reps && m->len < MAXLEN; r++) {
+                int idx = (int)((unsigned long)(o->x + r) % (unsigned)m->len);
+                MVal v = m->v[idx];
+                switch (m->kind) {
+                case K_STRUCT: m->d = dyn_array_push_struct(m->d, dyn_array_get_struct(m->d, idx), (size_t)m->ssize); break;
+                case K_STRING: m->d = dyn_array_push_string(m->d, dyn_array_get_string(m->d, idx)); break;
+                case K_ARRAY: m->d = dyn_array_push_array(m->d, dyn_array_get_array(m->d, idx)); break;
+                case K_INT: m->d = dyn_array_push_int(m->d, dyn_array_get_int(m->d, idx)); break;
+                default: do_push(m, &v); break;
+                }
+                m->v[m->len++] = v;
+            }
+            break; }
+        case OP_SET_SELF: { int t = pick_live(o->arr); if (t < 0) break; m = &A[t]; if (m->len < 2) break;
+            int di = (int)((unsigned long)o->x % (unsigned)m->len), si = (int)((unsigned long)o->y % (unsigned)m->len); if (si == di) si = (di + 1) % m->len;
+            switch (m->kind) {
+            case K_STRUCT: dyn_array_set_struct(m->d, di, dyn_array_get_struct(m->d, si), (size_t)m->ssize); break;
+            case K_STRING: dyn_array_set_string(m->d, di, dyn_array_get_string(m->d, si)); break;
+            case K_ARRAY: dyn_array_set_array(m->d, di, dyn_array_get_array(m->d, si)); break;
+            case K_INT: dyn_array_set_int(m->d, di, dyn_array_get_int(m->d, si)); break;
+            default: goto skip2;
+            }
+            m->v[di] = m->v[si];
+            skip2: break; }
+        case OP_LS_SET_SELF: { int k = o->arr & 1; if (!LS[k].l || !LS[k].n) break;
+            int di = (int)((unsigned long)o->x % (unsigned)LS[k].n), si = (o->y & 1) ? di : (int)((unsigned long)o->y % (unsigned)LS[k].n);
+            list_string_set(LS[k].l, di, list_string_get(LS[k].l, si)); LS[k].v[di] = LS[k].v[si]; break; }
+        /* more owners than a 16-bit counter holds, released again: the object must be exactly as alive as before */
+        case OP_RETAIN_MANY: { int t = pick_live(o->arr); if (t < 0) break; m = &A[t];
+            long nown = 65500 + o->x % 5000;
+            for (long q = 0; q < nown; q++) gc_retain(m->d);
+            for (long q = 0; q < nown; q++) gc_release(m->d);
+            if (!gc_is_managed(m->d)) { viol("object-died-with-owners", "op %d: %ld retains followed by %ld releases destroyed an array that still has %d owner(s)", i, nown, nown, m->rc); break; }
+            for (int e = 0; e < m->len; e++) if (!valeq(m->kind, m->ssize, &m->v[e], m->d, e)) { viol("get-wrong-value", "op %d: element %d differs from the model after retain/release of %ld owners", i, e, nown); break; }
+            break; }
         case OP_NS_FREE: { int a1 = o->arr % 3; if (!NS[a1].s) break; nl_string_free(NS[a1].s); NS[a1].s = NULL; NS[a1].n = 0; break; }
         }
+        if (!vsig[0] && u8slot >= 0) utf8_oracle(u8slot, o, i);
         if (!vsig[0] && o->op >= OP_LI_NEW) lists_check(opname[o->op], i);
         if (!vsig[0]) check_all(opname[o->op], i);
     }
@@ -346,7 +410,7 @@ static void run_plan(Plan *P) {
 /* ---------------- plan gen / text ---------------- */
 static void plan_gen(Plan *P, uint64_t seed, bool quick) {
     memset(P, 0, sizeof *P); P->seed = seed; rs = seed * 0x2545F4914F6CDD1Dull + 1;
-    P->junk = rn(2) ? 1 + (int)rn(255) : 0; P->movere = (int)rn(2); P->stale = (int)rn(2); P->thresh = rn(2) ? 1024 : 0;
+    P->junk = rn(2) ? 1 + (int)rn(255) : 0; P->movere = (int)rn(2); P->stale = (int)rn(2); P->thresh = rn(2) ? 1024 : 0; P->image = (int)rn(2);
     int n = quick ? 20 + (int)rn(100) : 40 + (int)rn(200);
     /* swarm: a random subset of op kinds is enabled per run */
     bool en[NOPS]; for (int i = 0; i < NOPS; i++) en[i] = rn(4) != 0; en[OP_NEW] = en[OP_PUSH] = true;
@@ -361,7 +425,7 @@ static void plan_gen(Plan *P, uint64_t seed, bool quick) {
     }
 }
 static void plan_print(Plan *P, FILE *f) {
-    fprintf(f, "family rt\nseed %llu\nalloc junk=%d move_realloc=%d stale_recycle=%d gc_threshold=%d\n", (unsigned long long)P->seed, P->junk, P->movere, P->stale, P->thresh);
+    fprintf(f, "family rt\nseed %llu\nalloc junk=%d move_realloc=%d stale_recycle=%d gc_threshold=%d stale_image=%d\n", (unsigned long long)P->seed, P->junk, P->movere, P->stale, P->thresh, P->image);
     for (int i = 0; i < P->nops; i++) fprintf(f, "op %s arr=%d kind=%s x=%ld y=%ld\n", opname[P->ops[i].op], P->ops[i].arr, kname[P->ops[i].kind], P->ops[i].x, P->ops[i].y);
 }
 static bool plan_parse(Plan *P, const char *path) {
@@ -370,7 +434,7 @@ static bool plan_parse(Plan *P, const char *path) {
     while (fgets(line, sizeof line, f)) {
         unsigned long long s; char on[32], kn[16]; int a; long x, y;
         if (sscanf(line, "seed %llu", &s) == 1) P->seed = s;
-        else if (sscanf(line, "alloc junk=%d move_realloc=%d stale_recycle=%d gc_threshold=%d", &P->junk, &P->movere, &P->stale, &P->thresh) == 4) {}
+        else if (sscanf(line, "alloc junk=%d move_realloc=%d stale_recycle=%d gc_threshold=%d stale_image=%d", &P->junk, &P->movere, &P->stale, &P->thresh, &P->image) >= 4) {}
         else if (sscanf(line, "op %31s arr=%d kind=%15s x=%ld y=%ld", on, &a, kn, &x, &y) == 5 && P->nops < 256) {
             Op *o = &P->ops[P->nops]; o->op = -1;
             for (int i = 0; i < NOPS; i++) if (!strcmp(opname[i], on)) o->op = i;
